@@ -35,6 +35,7 @@ pub struct Plane {
     pub cpr_lat: [u32; 2],
     pub cpr_lon: [u32; 2],
     pub cpr_time: [DateTime<Utc>; 2],
+    pub cpr_surface: [bool; 2],
     pub lat: f64,
     pub lon: f64,
     pub distance_from_observer: Option<f64>,
@@ -87,6 +88,7 @@ impl Plane {
             cpr_lat: [0, 0],
             cpr_lon: [0, 0],
             cpr_time: [Utc::now(), Utc::now()],
+            cpr_surface: [false, false],
             lat: 0.0,
             lon: 0.0,
             distance_from_observer: None,
